@@ -404,6 +404,7 @@ type C05Typed struct {
 	Dir    *Directive `json:"dir"`
 	Reg    []string   `json:"reg,omitempty"`
 	Hidden bool       `json:"hidden,omitempty"` // the container sits in an unexported field
+	Script []*Op      `json:"script,omitempty"` // shape svfmt: the SafeFormat method's writer primitives
 }
 
 func init() {
@@ -419,6 +420,40 @@ func checkC05Typed(s *C05Typed) Result {
 	var res Result
 	applyConfig(s.Reg, false, nil)
 	defer resetConfig()
+	if s.Shape == "svfmt" {
+		// a value whose type is marked SafeValue and which renders itself
+		// through SafeFormat with writer primitives only: its full rendering
+		// stays visible, whichever primitive it uses, wherever it sits
+		x := SVSafeFmtV{run: (&builder{}).printerScript(s.Script)}
+		d := s.Dir.String()
+		res.Classes = append(res.Classes, "shape:svfmt")
+		res.NonTrivial = len(s.Script) > 0
+		type placed struct {
+			name string
+			arg  interface{}
+		}
+		for _, pl := range []placed{{"top", x}, {"slice", []interface{}{x, 1}}, {"typed slice", []SVSafeFmtV{x}}, {"field", struct{ X interface{} }{x}},
+			{"map", map[redact.SafeString]SVSafeFmtV{"k": x}}} {
+			name, arg := pl.name, pl.arg
+			r := callRedact("Sprintf", d, []interface{}{arg})
+			if r.panicked {
+				res.Err = fmt.Errorf("Sprintf(%s, SafeValue-marked SafeFormatter, %s): panicked: %v", qs(d), name, r.panicVal)
+				return res
+			}
+			out := r.out
+			if name == "slice" {
+				// the sibling 1 is an ordinary unsafe operand: drop the last envelope
+				if i := bytes.LastIndex(out, []byte(startS)); i >= 0 {
+					out = out[:i]
+				}
+			}
+			if hasMarker(out) {
+				res.Err = fmt.Errorf("Sprintf(%s, SafeValue-marked SafeFormatter, %s) prints %s: part of its rendering is enveloped", qs(d), name, q(r.out))
+				return res
+			}
+		}
+		return res
+	}
 	var xs []interface{}
 	if p, _ := guard(func() { xs = BuildAll(s.Leaves, 0) }); p || len(xs) < 2 || xs[0] == nil || xs[1] == nil {
 		return res
